@@ -15,6 +15,7 @@ import PM.Step
 import PM.Structure
 import PM.StructEdit
 import Proofs.LiftSuccess
+set_option linter.unusedSimpArgs false
 namespace PM
 
 /-! ### one-sided cuts of a child list, all the way down -/
